@@ -841,8 +841,9 @@ where
 
         data.open_files[file_idx].dirty = true;
 
-        if data.open_files[file_idx].entry.cluster.0 < fat::RESERVED_ENTRIES {
+        if !buffer.is_empty() && data.open_files[file_idx].entry.cluster.0 < fat::RESERVED_ENTRIES {
             // file doesn't have a valid allocated cluster (possible zero-length file), allocate one
+            // - unless there is nothing to store: that always fits
             data.open_files[file_idx].entry.cluster =
                 match data.open_volumes[volume_idx].volume_type {
                     VolumeType::Fat(ref mut fat) => {
